@@ -12,9 +12,11 @@
 //!   zm rebuild <key=id.id..,key=..|->        rebuild_zone_maps. The hash maps are seeded randomly
 //!                                            (`ahash::RandomState`), so the iteration order that
 //!                                            `rebuild_zone_map` walks is not reproducible: the
-//!                                            generator emits `rebuild` only while no column is
-//!                                            order-sensitive (argument `-`; the model re-checks that
-//!                                            claim). An explicit order is read by the model only.
+//!                                            argument is `-` while no column is order-sensitive, or
+//!                                            `~k.k` naming the keys whose rebuilt min/max depend on
+//!                                            that order (printed as `~` by `zone` until the next
+//!                                            rebuild; the model re-checks the claim). An explicit
+//!                                            order is read by the model only.
 //!   zm mix <op> <tok> <tok,tok,..>           stateless: the listed values in a fresh column,
 //!                                            `rebuild_zone_maps`, `might_match(op, tok)`; repeated
 //!                                            over many freshly seeded maps → the *set* of
@@ -42,10 +44,13 @@ use grafeo_engine::database::GrafeoDB;
 pub struct ZmSt {
     db: GrafeoDB,
     ps: PropertyStorage<NodeId>,
+    /// keys whose zone map was rebuilt over order-sensitive content (`rebuild ~k.k`): their
+    /// min/max depend on the random iteration order and are printed as `~`
+    fuzzy: Vec<String>,
 }
 impl ZmSt {
     pub fn new() -> Self {
-        ZmSt { db: GrafeoDB::new_in_memory(), ps: PropertyStorage::new() }
+        ZmSt { db: GrafeoDB::new_in_memory(), ps: PropertyStorage::new(), fuzzy: vec![] }
     }
 }
 
@@ -207,10 +212,12 @@ impl Mirror {
     /// `rebuild -` when no column is order-sensitive, otherwise a stateless `mix` line per
     /// sensitive column (small ones)
     fn rebuild_lines(&self, r: &mut Rng, pool: &[String], out: &mut Vec<String>) {
-        if (0..self.cols.len()).all(|k| !self.sensitive(k)) {
+        let sens: Vec<String> = (0..self.cols.len()).filter(|k| self.sensitive(*k)).map(|k| k.to_string()).collect();
+        if sens.is_empty() {
             out.push("zm rebuild -".into());
             return;
         }
+        out.push(format!("zm rebuild ~{}", sens.join(".")));
         for k in 0..self.cols.len() {
             if self.sensitive(k) && self.cols[k].len() <= 6 {
                 let vals: Vec<String> = self.cols[k].iter().map(|(_, t)| t.clone()).collect();
@@ -402,9 +409,10 @@ fn opt_val(s: &str) -> Option<Value> {
     if s == "*" { None } else { Some(untok(s)) }
 }
 
-fn zone_str(z: Option<grafeo_core::index::zone_map::ZoneMapEntry>) -> String {
+fn zone_str(z: Option<grafeo_core::index::zone_map::ZoneMapEntry>, fuzzy: bool) -> String {
     match z {
         None => "none".into(),
+        Some(z) if fuzzy => format!("~,~,{},{}", z.null_count, z.row_count),
         Some(z) => format!(
             "{},{},{},{}",
             z.min.as_ref().map(tok).unwrap_or("-".into()),
@@ -461,9 +469,13 @@ pub fn run(st: &mut ZmSt, args: &[&str]) -> String {
                 }
                 format!("{}", ok)
             }
-            ["rebuild", _ords] => {
+            ["rebuild", ords] => {
                 store.rebuild_zone_maps();
                 st.ps.rebuild_zone_maps();
+                st.fuzzy = match ords.strip_prefix('~') {
+                    Some(ks) => ks.split('.').map(|k| k.to_string()).collect(),
+                    None => vec![],
+                };
                 "-".into()
             }
             ["mix", op, q, vals] => {
@@ -479,7 +491,7 @@ pub fn run(st: &mut ZmSt, args: &[&str]) -> String {
                     }
                     ps.rebuild_zone_maps();
                     answers.insert(format!("{}", ps.might_match(&pk, cmp_op(op), &qv)));
-                    zones.insert(zone_str(ps.zone_map(&pk)));
+                    zones.insert(zone_str(ps.zone_map(&pk), false));
                 }
                 format!(
                     "{};{}",
@@ -489,7 +501,8 @@ pub fn run(st: &mut ZmSt, args: &[&str]) -> String {
             }
             ["zone", k] => {
                 let pk = PropertyKey::new(key(k));
-                both(zone_str(st.ps.zone_map(&pk)), zone_str(store.node_property_zone_map(&pk)))
+                let fz = st.fuzzy.iter().any(|x| x == k);
+                both(zone_str(st.ps.zone_map(&pk), fz), zone_str(store.node_property_zone_map(&pk), fz))
             }
             ["might", k, op, v] => {
                 let pk = PropertyKey::new(key(k));
